@@ -280,7 +280,11 @@ def scan_matchers(state):
                 continue
             el = cfg.elements[head.position]
             if s.is_match_op_element(el):
-                name = s.get_event_name_from_element(state, fs, el)
+                try:
+                    name = s.get_event_name_from_element(state, fs, el)
+                except Exception as e:
+                    # a head left on a match statement whose event cannot even be named (e.g. `match $undefined.Finished()`)
+                    name = f"<unevaluable:{type(e).__name__}>"
                 found.setdefault(name, []).append((fs.uid, head.uid))
     return {k: sorted(v) for k, v in found.items()}
 
@@ -316,6 +320,10 @@ def invariants(state):
             if live:
                 bad.append(("I3-done-flow-holds-position", f"{fs.status.value} flow {fs.flow_id} still has {len(live)} non-inactive heads"))
     scan = scan_matchers(state)
+    for k in [k for k in scan if k.startswith("<unevaluable:")]:
+        names = [state.flow_states[f].flow_id for f, _ in scan[k]]
+        bad.append(("I2-head-parked-on-unevaluable-match", f"flows {names} wait on a match statement whose event name cannot be evaluated {k}: no event can ever release them"))
+        del scan[k]
     index = {k: sorted(v) for k, v in state.event_matching_heads.items() if v}
     if scan != index:
         missing = {k: [x for x in v if x not in index.get(k, [])] for k, v in scan.items()}
